@@ -78,51 +78,58 @@ def lfda_case(rng):
   n_comp = None if rng.random() < 0.4 else int(rng.integers(1, d + 1))
   n = len(X)
   ev = {'ev': 'LfdaFit', 'X': dym(X), 'y': [int(v) for v in y], 'k': kparam, 'embedding': emb, 'exc': '', 'L': [],
-        'a': [], 's': [], 't': [], 'A': [], 'Vt': [], 'lam': [], 'coef': [], 'n_components': n_comp or 0}
+        'doc': {}, 'dev': {}, 'n_components': n_comp or 0}
   with warnings.catch_warnings():
     warnings.simplefilter('ignore')
     try:
       est = gen.LFDA(n_components=n_comp, k=kparam or None, embedding_type=emb).fit(X, y)
       L = est.components_
       ev['L'] = dym(L)
-      # ---- witnesses of the DOCUMENTED definition (untrusted; TLC verifies them)
+      # ---- witnesses (untrusted; TLC verifies them) for the DOCUMENTED local scale and for the named deviation D6
       k0 = min(7, d - 1) if not kparam else (d - 1 if kparam >= d else kparam)
       D2 = ((X[:, None, :] - X[None, :, :]) ** 2).sum(-1)
-      a = np.zeros(n)
-      for i in range(n):
-        same = np.flatnonzero(y == y[i])
+      a_doc = np.zeros(n)
+      a_dev = np.zeros(n)
+      from sklearn.metrics import pairwise_distances
+      for c in np.unique(y):
+        same = np.flatnonzero(y == c)
         kk = min(k0, len(same) - 1)
-        a[i] = np.sort(D2[i, same])[kk]
-      s = np.zeros((n, n)); t = np.zeros((n, n)); A = np.zeros((n, n))
-      for i in range(n):
-        for j in range(n):
-          if i < j and y[i] == y[j] and a[i] * a[j] > 0:
-            s[i, j] = np.sqrt(a[i] * a[j])
-            t[i, j] = D2[i, j] / s[i, j]
-            A[i, j] = np.exp(-t[i, j])
-      ev['a'], ev['s'], ev['t'], ev['A'] = dyv(a), dym(s), dym(t), dym(A)
-      Asym = A + A.T
-      Sw = np.zeros((d, d)); Sb = np.zeros((d, d))
-      for i in range(n):
-        for j in range(i + 1, n):
-          v = (X[i] - X[j])[:, None]
-          o = v.dot(v.T)
-          if y[i] == y[j]:
-            nc = (y == y[i]).sum()
-            Sw += Asym[i, j] / nc * o
-            Sb += Asym[i, j] * (1.0 / n - 1.0 / nc) * o
-          else:
-            Sb += o / n
-      lam, V = scipy.linalg.eigh(Sb, Sw)
-      order = np.argsort(-lam)
-      lam, V = lam[order], V[:, order]
-      ev['Vt'], ev['lam'] = dym(V.T), dyv(lam)
-      kk = L.shape[0]
-      coef = []
-      for r in range(kk):
-        vr = V[:, r]
-        coef.append(float(L[r].dot(vr) / vr.dot(vr)))
-      ev['coef'] = dyv(coef)
+        for i in same:
+          a_doc[i] = np.sort(D2[i, same])[kk]
+        # what the implementation reads: column kk of the column-wise partially sorted class distance matrix
+        dist = pairwise_distances(X[same], metric='l2', squared=True)
+        a_dev[same] = np.partition(dist, kk, axis=0)[:, kk]
+        # (exact squared distances on the dyadic grid, so that TLC's exact comparison applies)
+        col = D2[same][:, same[kk]]
+        a_dev[same] = np.array([col[np.argmin(np.abs(col - v))] for v in a_dev[same]])
+
+      def witnesses(a):
+        s = np.zeros((n, n)); t = np.zeros((n, n)); A = np.zeros((n, n))
+        for i in range(n):
+          for j in range(n):
+            if i < j and y[i] == y[j] and a[i] * a[j] > 0:
+              s[i, j] = np.sqrt(a[i] * a[j])
+              t[i, j] = D2[i, j] / s[i, j]
+              A[i, j] = np.exp(-t[i, j])
+        Asym = A + A.T
+        Sw = np.zeros((d, d)); Sb = np.zeros((d, d))
+        for i in range(n):
+          for j in range(i + 1, n):
+            v = (X[i] - X[j])[:, None]
+            o = v.dot(v.T)
+            if y[i] == y[j]:
+              nc = (y == y[i]).sum()
+              Sw += Asym[i, j] / nc * o
+              Sb += Asym[i, j] * (1.0 / n - 1.0 / nc) * o
+            else:
+              Sb += o / n
+        lam, V = scipy.linalg.eigh(Sb, Sw)
+        order = np.argsort(-lam)
+        lam, V = lam[order], V[:, order]
+        coef = [float(L[r].dot(V[:, r]) / V[:, r].dot(V[:, r])) for r in range(L.shape[0])]
+        return {'a': dyv(a), 's': dym(s), 't': dym(t), 'A': dym(A), 'Vt': dym(V.T), 'lam': dyv(lam), 'coef': dyv(coef)}
+      ev['doc'] = witnesses(a_doc)
+      ev['dev'] = witnesses(a_dev)
     except Exception as e:
       ev['exc'] = type(e).__name__
       ev['exc_msg'] = str(e)[:120]
